@@ -23,6 +23,7 @@ func init() {
 	register(&Scenario{Prop: "C17", Name: "gate-expiry", Run: func(rc *RunCtx) { runGateSeq(rc, "C17") }})
 	register(&Scenario{Prop: "C17", Name: "gate-expiry-conc", Run: runGateExpiryConc})
 	register(&Scenario{Prop: "C17", Name: "gate-flush-conc", Run: runGateFlushConc})
+	register(&Scenario{Prop: "C17", Name: "gate-backlog", Run: runGateBacklog})
 	register(&Scenario{Prop: "C11", Name: "gate-enum", Run: func(rc *RunCtx) { runGateEnum(rc, "C11") }})
 	register(&Scenario{Prop: "C17", Name: "gate-enum", Run: func(rc *RunCtx) { runGateEnum(rc, "C17") }})
 }
@@ -1349,5 +1350,118 @@ func runGateBroker(rc *RunCtx) {
 			rc.Failf("C11.lost", "through-broker", "id %s: the sinks received the events %v inside composites, the Sends that succeeded were %v (each exactly once, in order); composites at the sink: %v", id, got, want, sink.seqs)
 			return
 		}
+	}
+}
+
+// ---- C17 at scale: a large backlog of groups that have all expired -------------------------
+//
+// "After any successful Process call made at time T no group whose expiry time lies before T
+// remains gated" has no size limit in it. N groups (up to a few thousand) are opened, the
+// clock passes their expiry, ONE Process call follows: all N must have reached the Sender
+// (oldest first) when it returns, or been dropped when no Broker is configured -- revealed by
+// flush probes: a flush of an id whose group should be gone composes the flush event alone.
+
+type lightPayload struct {
+	ID    string
+	Flush bool
+	N     int
+}
+
+func (p *lightPayload) GetID() string    { return p.ID }
+func (p *lightPayload) FlushEvent() bool { return p.Flush }
+func (p *lightPayload) ComposeFrom(events []*el.Event) (el.EventType, interface{}, error) {
+	var ns []int
+	for _, e := range events {
+		if lp, ok := e.Payload.(*lightPayload); ok {
+			ns = append(ns, lp.N)
+		}
+	}
+	return "composite", &compPayload{Seqs: ns}, nil
+}
+
+type countSender struct{ got [][]int }
+
+func (s *countSender) Send(ctx context.Context, t el.EventType, payload interface{}) (el.Status, error) {
+	if cp, ok := payload.(*compPayload); ok {
+		s.got = append(s.got, cp.Seqs)
+	} else {
+		s.got = append(s.got, nil)
+	}
+	return el.Status{}, nil
+}
+
+func runGateBacklog(rc *RunCtx) {
+	tp := rc.Tape
+	sim := rc.Sim
+	// the space is small (size x Broker x events per group): the first 24 runs of this
+	// scenario cover it, the others go to the ordinary expiry histories
+	idx := rc.EnumIndex
+	if idx >= 24 {
+		runGateSeqOps(rc, "C17", nil, false)
+		return
+	}
+	_ = tp
+	sim.MaxSteps = 400000
+	now := time.Date(2026, 5, 1, 0, 0, 0, 0, time.UTC)
+	N := []int{3, 40, 700, 1100, 2600, 5000}[idx%6]
+	hasBroker := (idx/6)%2 == 0
+	snd := &countSender{}
+	gf := &gated.Filter{Expiration: time.Second, NowFunc: func() time.Time { return now }}
+	if hasBroker {
+		gf.Broker = snd
+	}
+	perGroup := 1 + int(idx/12)%2
+	simrt.Probe("gate.backlog-run")
+	done := false
+	sim.Spawn("backlog", func() {
+		defer func() { done = true }()
+		ctx := context.Background()
+		n := 0
+		for g := 0; g < N; g++ {
+			for k := 0; k < perGroup; k++ {
+				n++
+				if out, err := gf.Process(ctx, &el.Event{Type: "t", Payload: &lightPayload{ID: fmt.Sprintf("g%d", g), N: n}}); out != nil || err != nil {
+					rc.Failf("C17.spurious-error", "backlog", "opening group %d: (%v, %v)", g, out, err)
+					return
+				}
+			}
+			now = now.Add(time.Microsecond) // groups expire in opening order
+		}
+		now = now.Add(10 * time.Second) // every group has expired
+		out, err := gf.Process(ctx, &el.Event{Type: "t", Payload: &lightPayload{ID: "trigger", N: -1}})
+		if out != nil || err != nil {
+			rc.Failf("C17.spurious-error", "backlog", "the Process call after the expiry returned (%v, %v)", out, err)
+			return
+		}
+		if hasBroker {
+			if len(snd.got) != N {
+				rc.Failf("C17.group-not-emitted", "backlog", "%d groups had expired before the Process call at T; when it returned (successfully) %d of them had been emitted through the Broker", N, len(snd.got))
+				return
+			}
+			for g := 0; g < N; g++ {
+				if len(snd.got[g]) != perGroup || snd.got[g][0] != g*perGroup+1 {
+					rc.Failf("C17.expiry-order", "backlog", "emission #%d is %v, expected the %d event(s) of group g%d (oldest group first)", g, snd.got[g], perGroup, g)
+					return
+				}
+			}
+		}
+		// black-box: what is still gated? flush a sample of the ids
+		for _, g := range []int{0, N / 2, N - 1} {
+			out, err := gf.Process(ctx, &el.Event{Type: "t", Payload: &lightPayload{ID: fmt.Sprintf("g%d", g), Flush: true, N: -2}})
+			if err != nil || out == nil {
+				rc.Failf("C17.spurious-error", "backlog-probe", "flush probe of g%d returned (%v, %v)", g, out, err)
+				return
+			}
+			if cp, ok := out.Payload.(*compPayload); !ok || len(cp.Seqs) != 1 {
+				rc.Failf("C17.lingering", "backlog", "group g%d had expired before the successful Process call at T, but a later flush of its id still composed %v: it was still gated (Broker configured: %v)", g, out.Payload, hasBroker)
+				return
+			}
+		}
+	})
+	sim.Run(nil)
+	rc.NonTrivial = N > 100
+	rc.Desc = map[string]interface{}{"groups": N, "events_per_group": perGroup, "broker": hasBroker}
+	if !done && len(rc.Viol) == 0 && len(sim.Panics) == 0 {
+		rc.Failf("C17.stuck", stuckClass(sim), "backlog run did not finish: %s", strings.Join(sim.StuckInfo, "; "))
 	}
 }
